@@ -91,24 +91,24 @@ func (p DictPattern) Bind(ctx context.Context, local Scope, value Value) (contex
 			extra = &p.entries[i]
 			continue
 		}
-		key := entry.at
-		if lit, is := key.(LiteralExpr); is {
-			key = lit.Literal()
+		// the key may be any expression, e.g. {(x): v} or {(1 + 2): v}: it is evaluated in the enclosing scope
+		key, err := entry.at.Eval(ctx, local)
+		if err != nil {
+			return ctx, EmptyScope, err
 		}
 
-		dictExpr, found := m.Get(key.(Value))
+		dictExpr, found := m.Get(key)
 		if !found {
 			if entry.pattern.fallback == nil {
 				return ctx, EmptyScope, fmt.Errorf("couldn't find %s in dict %s", key, m)
 			}
-			var err error
 			dictValue, err = entry.pattern.fallback.Eval(ctx, local)
 			if err != nil {
 				return ctx, EmptyScope, err
 			}
 		} else {
 			dictValue = dictExpr.(Value)
-			m = m.Without(key.(Value))
+			m = m.Without(key)
 		}
 		if err := bind(entry, dictValue); err != nil {
 			return ctx, EmptyScope, err
